@@ -308,6 +308,9 @@ def run_exec(root: str, spec: dict[str, Any], roles: dict[str, str], knobs: dict
     out["unwrapped_open"] = env.unwrapped_open
     out["stdout"] = cap.stdout.getvalue()[-600:].replace(root, "$ROOT")
     out["log_tail"] = [(n, lv, scrub(m)[:200].replace(root, "$ROOT")) for n, lv, m in cap.records[-6:]]
+    # what a handler attached by the caller would have been told at WARNING and above: for the file entry
+    # points this *is* the error report (they only return -1)
+    out["log_warn"] = [(n, lv, scrub(m)[:300].replace(root, "$ROOT")) for n, lv, m in cap.records if lv >= 30][:40]
     if "argv" in holder:
         out["argv"] = [a.replace(root, "$ROOT") for a in holder["argv"]]
     return out
